@@ -19,8 +19,12 @@ fn series(len: usize, salt: u64) -> Vec<f64> {
         .collect()
 }
 
+/// part=dispatch (YA) compares the removed value / start index at the final position of a too-long window as well:
+/// it is the one observation that tells the index body from the iterator body, i.e. the backend dispatch
+static UNMASK: std::sync::atomic::AtomicBool = std::sync::atomic::AtomicBool::new(false);
+
 fn masked_rm(w: usize, len: usize, i: usize, c: Cell) -> Cell {
-    if len < w && i + 1 == len { Cell::Int(-999) } else { c }
+    if len < w && i + 1 == len && !UNMASK.load(std::sync::atomic::Ordering::Relaxed) { Cell::Int(-999) } else { c }
 }
 
 fn optf(v: Option<f64>) -> Cell {
@@ -492,6 +496,146 @@ fn degenerate(em: &mut Emitter) {
     }
 }
 
+// ---------------------------------------------------------------------------------------------
+// Part "dispatch" (YA): WHICH body a backend runs, for every one-series entry point, both output paths and
+// every window 0..=len+2 - compared with Model/DriverDispatch.v (`rolling_*_on (be_of b) out`), nothing masked.
+// Backends: Vec, boxed slice, ndarray owned / stepped view / mutable view, VecDeque, option view, Arc<Vec>,
+// Arc<VecDeque>, Arc<Arc<Array1>>.  Part "lazy": k calls of next() on rolling_custom_iter, k = 0..=len+1: the callback
+// must have run exactly min(k, len) times, on the first windows, in order (the iterator is then dropped).
+
+macro_rules! run_lazy {
+    ($k:expr, $w:expr, $view:expr, $t1:ty, $it:expr) => {{
+        let trace: RefCell<Vec<Vec<Cell>>> = RefCell::new(vec![]);
+        let w: usize = $w;
+        let k: usize = $k;
+        let res = guarded(std::panic::AssertUnwindSafe(|| -> Vec<i64> {
+            let v = $view;
+            let it = $it;
+            let f = |sl: $t1| {
+                let mut t = trace.borrow_mut();
+                let n = t.len();
+                let mut c: Vec<Cell> = it(sl);
+                c.push(Cell::Sep);
+                t.push(c);
+                n as i64
+            };
+            let mut o = vec![];
+            let mut iter = v.rolling_custom_iter(w, f);
+            for _ in 0..k {
+                if let Some(x) = Iterator::next(&mut iter) {
+                    o.push(x)
+                }
+            }
+            drop(iter);
+            o
+        }));
+        assemble(res, &trace)
+    }};
+}
+
+fn dispatch(em: &mut Emitter) {
+    let fcell = |x: f64| Cell::F(x);
+    let ocell = |x: Option<f64>| optf(x);
+    let sl_vec = |s: &[f64]| cells_f64(s);
+    let maxlen = if em.thorough() { 5 } else { 3 };
+    for len in 0..=maxlen {
+        let xs = series(len, 21);
+        let ys: Vec<f64> = vec![];
+        let xs_coq = coq_list(&xs, |x| coq_f64(*x));
+        let xo_coq = coq_list(&xs, |x| if x.is_nan() { "None".into() } else { format!("(Some {})", coq_f64(*x)) });
+        for w in 0..=len + 2 {
+            let wrel = if w == 0 { "zero" } else if w > len { "gt" } else if w == len { "eq" } else { "lt" };
+            for kind in ["apply", "apply_idx"] {
+                for buf in [false, true] {
+                    let runner = if kind == "apply" { "run_apply_on" } else { "run_apply_idx_on" };
+                    let term = |b: usize, optview: bool| format!("({} {} {} {} {} {})", runner, if optview { "eo" } else { "ef" },
+                        coq_nat(b), coq_bool(buf), coq_nat(w), if optview { &xo_coq } else { &xs_coq });
+                    let desc = |be: &str| format!("dispatch kind={} be={} buf={} w={} len={} xs={:?}", kind, be, buf, w, len, xs);
+                    let tags = |be: &str| format!("part=dispatch kind={} be={} buf={} len={} wrel={}{}", kind, be, buf, len, wrel,
+                        if len == 0 { " nt=0" } else { "" });
+                    UNMASK.store(true, std::sync::atomic::Ordering::Relaxed);
+                    em.case("exact", &tags("vec"), &desc("vec"), || term(0, false),
+                        || run_kind!(kind, buf, w, len, xs.clone(), ys.clone(), fcell));
+                    em.case("exact", &tags("slice"), &desc("slice"), || term(1, false),
+                        || { let b = xs.clone().into_boxed_slice(); run_kind!(kind, buf, w, len, &*b, ys.clone(), fcell) });
+                    em.case("exact", &tags("nd_owned"), &desc("nd_owned"), || term(3, false),
+                        || run_kind!(kind, buf, w, len, Array1::from_vec(xs.clone()), ys.clone(), fcell));
+                    em.case("exact", &tags("nd_view"), &desc("nd_view"), || term(4, false), || {
+                        let mut big = vec![-7.0; 2 * len];
+                        for i in 0..len { big[2 * i] = xs[i] }
+                        let a = Array1::from_vec(big);
+                        let v: ArrayView1<f64> = a.slice(s![..;2]);
+                        run_kind!(kind, buf, w, len, v, ys.clone(), fcell)
+                    });
+                    em.case("exact", &tags("nd_viewmut"), &desc("nd_viewmut"), || term(5, false), || {
+                        let mut a = Array1::from_vec(xs.clone());
+                        run_kind!(kind, buf, w, len, a.view_mut(), ys.clone(), fcell)
+                    });
+                    em.case("exact", &tags("deque"), &desc("deque"), || term(6, false),
+                        || run_kind!(kind, buf, w, len, rot_deque(&xs, 1), ys.clone(), fcell));
+                    em.case("exact", &tags("optview"), &desc("optview"), || term(7, true),
+                        || { let base = xs.clone(); run_kind!(kind, buf, w, len, base.opt(), ys.clone(), ocell) });
+                    em.case("exact", &tags("arcvec"), &desc("arcvec"), || term(9, false),
+                        || run_kind!(kind, buf, w, len, Arc::new(xs.clone()), ys.clone(), fcell));
+                    em.case("exact", &tags("arcdeque"), &desc("arcdeque"), || term(10, false),
+                        || run_kind!(kind, buf, w, len, Arc::new(rot_deque(&xs, 1)), ys.clone(), fcell));
+                    em.case("exact", &tags("arcarcnd"), &desc("arcarcnd"), || term(11, false),
+                        || run_kind!(kind, buf, w, len, Arc::new(Arc::new(Array1::from_vec(xs.clone()))), ys.clone(), fcell));
+                    UNMASK.store(false, std::sync::atomic::Ordering::Relaxed);
+                }
+            }
+            for buf in [false, true] {
+                let kind = "custom";
+                let term = |b: usize| format!("(run_custom_on ef {} {} {} {})", coq_nat(b), coq_bool(buf), coq_nat(w), xs_coq);
+                let desc = |be: &str| format!("dispatch kind={} be={} buf={} w={} len={} xs={:?}", kind, be, buf, w, len, xs);
+                let tags = |be: &str| format!("part=dispatch kind={} be={} buf={} len={} wrel={}{}", kind, be, buf, len, wrel,
+                    if len == 0 { " nt=0" } else { "" });
+                em.case("exact", &tags("vec"), &desc("vec"), || term(0),
+                    || run_custom1!(kind, buf, w, len, xs.clone(), &[f64], sl_vec));
+                em.case("exact", &tags("slice"), &desc("slice"), || term(1),
+                    || { let b = xs.clone().into_boxed_slice(); run_custom1!(kind, buf, w, len, &*b, &[f64], sl_vec) });
+                em.case("exact", &tags("nd_owned"), &desc("nd_owned"), || term(3),
+                    || run_custom1!(kind, buf, w, len, Array1::from_vec(xs.clone()), ArrayView1<'_, f64>,
+                        |s: ArrayView1<f64>| cells_f64(&s.to_vec())));
+                em.case("exact", &tags("nd_viewmut"), &desc("nd_viewmut"), || term(5), || {
+                    let mut a = Array1::from_vec(xs.clone());
+                    run_custom1!(kind, buf, w, len, a.view_mut(), ArrayView1<'_, f64>, |s: ArrayView1<f64>| cells_f64(&s.to_vec()))
+                });
+                em.case("exact", &tags("deque"), &desc("deque"), || term(6),
+                    || run_custom1!(kind, buf, w, len, rot_deque(&xs, 1), std::collections::vec_deque::Iter<'_, f64>,
+                        |s: std::collections::vec_deque::Iter<'_, f64>| cells_f64(&s.cloned().collect::<Vec<_>>())));
+                em.case("exact", &tags("arcvec"), &desc("arcvec"), || term(9),
+                    || run_custom1!(kind, buf, w, len, Arc::new(xs.clone()), &[f64], sl_vec));
+                em.case("exact", &tags("arcdeque"), &desc("arcdeque"), || term(10),
+                    || run_custom1!(kind, buf, w, len, Arc::new(rot_deque(&xs, 1)), std::collections::vec_deque::Iter<'_, f64>,
+                        |s: std::collections::vec_deque::Iter<'_, f64>| cells_f64(&s.cloned().collect::<Vec<_>>())));
+                em.case("exact", &tags("arcarcnd"), &desc("arcarcnd"), || term(11),
+                    || run_custom1!(kind, buf, w, len, Arc::new(Arc::new(Array1::from_vec(xs.clone()))), ArrayView1<'_, f64>,
+                        |s: ArrayView1<f64>| cells_f64(&s.to_vec())));
+            }
+            // the lazy iterator, partially consumed
+            for k in 0..=len + 1 {
+                let term = format!("(run_custom_iter_take ef {} {} {})", coq_nat(k), coq_nat(w), xs_coq);
+                let desc = |be: &str| format!("lazy be={} k={} w={} len={} xs={:?}", be, k, w, len, xs);
+                let tags = |be: &str| format!("part=lazy kind=custom_iter_take be={} len={} wrel={} pulled={}{}", be, len, wrel,
+                    if k == 0 { "none" } else if k < len { "some" } else if k == len { "all" } else { "beyond" },
+                    if len == 0 { " nt=0" } else { "" });
+                em.case("exact", &tags("vec"), &desc("vec"), || term.clone(),
+                    || run_lazy!(k, w, xs.clone(), &[f64], sl_vec));
+                em.case("exact", &tags("deque"), &desc("deque"), || term.clone(),
+                    || run_lazy!(k, w, rot_deque(&xs, 1), std::collections::vec_deque::Iter<'_, f64>,
+                        |s: std::collections::vec_deque::Iter<'_, f64>| cells_f64(&s.cloned().collect::<Vec<_>>())));
+                em.case("exact", &tags("nd_owned"), &desc("nd_owned"), || term.clone(),
+                    || run_lazy!(k, w, Array1::from_vec(xs.clone()), ArrayView1<'_, f64>,
+                        |s: ArrayView1<f64>| cells_f64(&s.to_vec())));
+                em.case("exact", &tags("arcdeque"), &desc("arcdeque"), || term.clone(),
+                    || run_lazy!(k, w, Arc::new(rot_deque(&xs, 1)), std::collections::vec_deque::Iter<'_, f64>,
+                        |s: std::collections::vec_deque::Iter<'_, f64>| cells_f64(&s.cloned().collect::<Vec<_>>())));
+            }
+        }
+    }
+}
+
 fn rot_deque(xs: &[f64], rot: usize) -> VecDeque<f64> {
     // build a deque whose ring buffer head is at offset `rot` (wrapped when rot > 0 and len > 1)
     let mut d: VecDeque<f64> = VecDeque::with_capacity(xs.len().max(1));
@@ -644,5 +788,6 @@ fn main() {
         }
     }
     degenerate(&mut em);
+    dispatch(&mut em);
     em.finish();
 }
